@@ -60,6 +60,7 @@ func Run(o *drv.Out) {
 	execdrv.Guard(o, func() { corpusSlashReexecuted(o) })
 	execdrv.Guard(o, func() { corpusCheckpointHeight(o) })
 	execdrv.Guard(o, func() { corpusRestartPatterns(o) })
+	execdrv.Guard(o, func() { corpusReProposal(o) })
 	for ci := 0; ci < nCases; ci++ {
 		execdrv.Guard(o, func() { runCase(o, ci, nHeights, bigSends) })
 	}
@@ -417,7 +418,7 @@ func corpusSlashReexecuted(o *drv.Out) {
 		_ = P.CheckMempool()
 		p, ok := c.Propose(P, nil, "produce")
 		if !ok || p.NTx != len(txs) {
-			o.Fail("C03:harness:slash-scenario-not-reached", fmt.Sprintf("height %d: the proposal does not hold the %d transactions", h, len(txs)), map[string]any{"case": o.CurCase()})
+			o.Fail("C03:scenario-expectation-differs:slash-scenario-not-reached", fmt.Sprintf("height %d: the proposal does not hold the %d transactions", h, len(txs)), map[string]any{"case": o.CurCase()})
 			return
 		}
 		before := stake0(P)
@@ -473,7 +474,7 @@ func corpusSlashReexecuted(o *drv.Out) {
 		if hi == 1 {
 			o.Count("slash-reexecuted:validator0:" + strings.ReplaceAll(before, " ", "_") + "->" + strings.ReplaceAll(wantStake, " ", "_"))
 			if before == wantStake {
-				o.Fail("C03:harness:slash-scenario-not-reached", "validator 0 was not slashed by the block", map[string]any{"case": o.CurCase()})
+				o.Fail("C03:scenario-expectation-differs:slash-scenario-not-reached", "validator 0 was not slashed by the block", map[string]any{"case": o.CurCase()})
 			}
 		}
 	}
@@ -582,7 +583,7 @@ func corpusRestartPatterns(o *drv.Out) {
 		pre := P.StateDigest()
 		p, ok := c.Propose(P, txs, "produce")
 		if !ok || p.NTx != 2 {
-			o.Fail("C03:harness:restart-scenario-not-reached", fmt.Sprintf("height %d: the proposal does not hold the edit-stake and the send", h), map[string]any{"case": o.CurCase()})
+			o.Fail("C03:scenario-expectation-differs:restart-scenario-not-reached", fmt.Sprintf("height %d: the proposal does not hold the edit-stake and the send", h), map[string]any{"case": o.CurCase()})
 			return
 		}
 		c.Hold = true
@@ -626,6 +627,113 @@ func corpusRestartPatterns(o *drv.Out) {
 	}
 	o.Nontrivial(o.CurCase())
 	o.Sample(fmt.Sprintf("restart-after-validator-change: %d heights with a stake change each; nodes restarting after every 1/2/3 commits agree with a node that never restarts", nH))
+}
+
+// corpusReProposal: scenario "re-proposal-from-cached-proposal". A leader whose round does not commit
+// and who leads again at the same height with an unchanged mempool is served the SAME cached proposal
+// by ProduceProposal; everything ProduceProposal puts into the header (last certificate, VDF, total
+// VDF iterations) must be a function of its inputs, not of what an earlier call left in the cached
+// header. At height 3 (the chain already has non-zero total VDF iterations) the proposer produces,
+// without any mempool change in between: with VDF a, again with a, with another VDF b, with no VDF.
+// Every produced block must be accepted by the proposer itself and by a replica; the last one is
+// committed on every path.
+func corpusReProposal(o *drv.Out) {
+	o.Case("re-proposal-from-cached-proposal")
+	rng := rand.New(rand.NewSource(56))
+	net := node.NewNetwork(17, 4, nil, 8)
+	defer net.Close()
+	c := execdrv.NewChain(o, net, rng, []int{16, 2})
+	P, V, R, S := c.NewNode("P", 0), c.NewNode("V", 1), c.NewNode("R", -1), c.NewNode("S", -1)
+	commitAll := func(p *execdrv.Proposal, pre string, label string) bool {
+		h := P.Height()
+		c.Hold = true
+		okP := c.Validate(P, p)
+		resP := ""
+		if okP {
+			resP = c.Commit(P, p, false)
+		}
+		post := P.StateDigest()
+		o.Op(fmt.Sprintf("def %d %s %s %s %s", h, pre, p.ID, post, p.Obs), "def")
+		c.Release()
+		want := fmt.Sprintf("ok state=%s obs=%s", post, p.Obs)
+		fail := func(path, got string) {
+			o.Fail("C03:path-diverges:re-proposal", fmt.Sprintf("height %d, %s: path %q gives %q, the proposer's header/results/state are %q", h, label, path, got, want), replayInfo(o, c, h, p, path))
+		}
+		if !okP || resP != want {
+			fail("proposer validate+commit-cached", fmt.Sprintf("validate ok=%v, commit %q", okP, resP))
+			return false
+		}
+		if !c.Validate(V, p) {
+			fail("validate", "rejected")
+			return false
+		}
+		for _, x := range []struct{ path, got string }{{"validate+commit-cached", c.Commit(V, p, false)}, {"commit-replay", c.Commit(R, p, false)}, {"sync", c.Commit(S, p, true)}} {
+			o.Count("compared")
+			if x.got != want {
+				fail(x.path, x.got)
+				return false
+			}
+		}
+		return true
+	}
+	// heights 1 and 2: ordinary blocks, the second with a VDF so that the running total is not zero
+	for hi := 0; hi < 2; hi++ {
+		h := P.Height()
+		var vdf *crypto.VDF
+		if hi == 1 {
+			vdf = P.MakeVDF(40)
+		}
+		pre := P.StateDigest()
+		p, ok := c.ProposeVDF(P, []node.MixTx{{Kind: "send", Bytes: net.SendTx(net.AcctKeys[hi], net.FreshAddr(hi), 1000, 10000, h, "")}}, "produce", vdf)
+		if !ok || !commitAll(p, pre, "ordinary block") {
+			return
+		}
+	}
+	h := P.Height()
+	pre := P.StateDigest()
+	a, b := P.MakeVDF(30), P.MakeVDF(70)
+	txs := []node.MixTx{{Kind: "send", Bytes: net.SendTx(net.AcctKeys[3], net.FreshAddr(33), 1000, 10000, h, "")}}
+	rounds := []struct {
+		label string
+		vdf   *crypto.VDF
+	}{{"first proposal, VDF a (30 iterations)", a}, {"second proposal from the same cached proposal, VDF a again", a},
+		{"third proposal, VDF b (70 iterations)", b}, {"fourth proposal, no VDF", nil}}
+	var last *execdrv.Proposal
+	for i, r := range rounds {
+		var mp []node.MixTx
+		if i == 0 {
+			mp = txs
+		}
+		p, ok := c.ProposeVDF(P, mp, "produce", r.vdf)
+		if !ok {
+			o.Fail("C03:path-diverges:re-proposal", fmt.Sprintf("height %d, %s: ProduceProposal fails", h, r.label), map[string]any{"case": o.CurCase()})
+			return
+		}
+		blk := new(lib.Block)
+		_ = lib.Unmarshal(p.Block, blk)
+		// the round does not commit: the proposer and a replica validate the proposal, then the round is interrupted
+		okP := c.Validate(P, p)
+		if okP {
+			c.Interrupt(P)
+		}
+		okV := c.Validate(V, p)
+		if okV {
+			c.Interrupt(V)
+		}
+		o.Count("compared")
+		if !okP || !okV {
+			o.Fail("C03:path-diverges:re-proposal",
+				fmt.Sprintf("height %d, %s (mempool unchanged since the first proposal): the produced block (TotalVdfIterations %d) is accepted by the proposer itself: %v, by a replica on the same prefix: %v", h, r.label, blk.BlockHeader.TotalVdfIterations, okP, okV),
+				replayInfo(o, c, h, p, "validate"))
+			return
+		}
+		last = p
+	}
+	if !commitAll(last, pre, "fourth proposal committed") {
+		return
+	}
+	o.Nontrivial(o.CurCase())
+	o.Sample("re-proposal-from-cached-proposal: four proposals from one cached mempool proposal (VDF a, a, b, none) each validate on the proposer and a replica; the last commits on all paths")
 }
 
 // step is one height of the chain as the proposer saw it.
@@ -696,7 +804,13 @@ func runCase(o *drv.Out, ci, nHeights int, bigSends []int) {
 			altTxs := c.Mix.Mix(node.MixOpts{Height: h, Sends: 2 + rng.Intn(20), Failing: rng.Intn(3)})
 			st.alt, _ = c.Propose(Q, altTxs, "produce")
 		}
-		p, ok := c.Propose(P, txs, "produce")
+		// from height 2 on, every other block carries a real VDF (non-zero TotalVdfIterations)
+		var vdf *crypto.VDF
+		if h >= 2 && hi%2 == 1 {
+			vdf = P.MakeVDF(20 + 10*hi)
+			o.Count("blocks-with-vdf")
+		}
+		p, ok := c.ProposeVDF(P, txs, "produce", vdf)
 		if !ok {
 			o.Fail("C03:proposer-failed", "ProduceProposal failed on an honest mempool", map[string]any{"case": o.CurCase(), "height": h})
 			return
